@@ -405,6 +405,10 @@ def same_sample(a, b):
     return None
 
 
+BYSTANDER_SPEC = {"n_nodes": 2, "n_videos": 1, "frames": [
+    {"frame_idx": 1, "video_idx": 0, "insts": [{"kind": "user", "pts": [[70.5, 30.25], [80.0, 41.0]]},
+                                               {"kind": "user", "pts": [[20.0, 60.5], [31.0, 70.0]]}]},
+    {"frame_idx": 3, "video_idx": 0, "insts": [{"kind": "user", "pts": [[11.0, 12.0], [14.5, 19.0]]}]}]}
 CM_SIGMA, CM_STRIDE = 1.5, 2       # confidence-map head used by every dataset of the check
 
 
@@ -537,12 +541,18 @@ def _run_dataset_case(chk, world, case, m_rep, m_asis, labels, before, chunk_dir
     ds = r[1]
     rows = expected_rows(spec, cfg)
     impl_idx = ([x for p in ds.instance_idx_list for x in p] if cfg["kind"] == "centered" else list(ds.lf_idx_list))
-    if npc:      # the cache is a set of files: they must not change, and nothing else may appear
-        cache0 = {i: (ds.cache[i], file_digest(ds.cache[i])) for i in ds.cache}
-        files0 = sorted(os.listdir(chunk_dir))
-    else:
-        cache0 = {i: snapshot(ds.cache[i]) for i in ds.cache}
     first, impl_reads, fails, facts_all = {}, [], [], {"invented_nodes": set()}
+
+    def snap_entry(e):      # a chunk file (digest) or an in-memory sample dict
+        return ("file", e, file_digest(e) if os.path.exists(e) else None) if isinstance(e, (str, os.PathLike)) else ("dict", snapshot(e))
+
+    cache0 = {i: snap_entry(ds.cache[i]) for i in ds.cache}
+    files0 = sorted(os.listdir(chunk_dir)) if npc else None
+    if sorted(ds.cache) != list(range(len(rows))):
+        fails.append(f"the dataset's cache has keys {sorted(ds.cache)[:8]} for {len(rows)} samples "
+                     "(entries that do not belong to this dataset)")
+    if any((k[0] == "file") != npc for k in cache0.values()):
+        fails.append("the dataset's cache mixes chunk files and in-memory samples (shared with another dataset?)")
     for i in seq:
         rr = call(ds.__getitem__, i)
         if rr[0] == "raise":
@@ -567,14 +577,30 @@ def _run_dataset_case(chk, world, case, m_rep, m_asis, labels, before, chunk_dir
             if why:
                 fails.append(f"ds[{i}]: {why}")
     # cache and labels untouched by the reads; length
-    for i, snap in cache0.items():
-        if npc:
-            if ds.cache.get(i) != snap[0] or not os.path.exists(snap[0]) or file_digest(snap[0]) != snap[1]:
-                fails.append(f"chunk file of index {i} changed during the reads")
-            continue
-        why = same_sample(snap, ds.cache[i])
-        if why:
-            fails.append(f"cache entry {i} changed during the reads: {why}")
+    def cache_changes(when):
+        for i, snap in cache0.items():
+            if snap[0] == "file":
+                if ds.cache.get(i) != snap[1] or not os.path.exists(snap[1]) or file_digest(snap[1]) != snap[2]:
+                    fails.append(f"chunk file of index {i} changed {when}")
+                continue
+            now = ds.cache.get(i)
+            why = same_sample(snap[1], now) if isinstance(now, dict) else "entry replaced"
+            if why:
+                fails.append(f"cache entry {i} changed {when}: {why}")
+
+    cache_changes("during the reads")
+    # a second dataset built in the same process (train / validation) must not disturb this one
+    if case.get("bystander") and first:
+        other = call(make_dataset, world.labels(BYSTANDER_SPEC), dict(cfg, np_chunks=False, anchor=None if cfg["anchor"] is None else min(cfg["anchor"], 1)))
+        if other[0] == "ok":
+            call(other[1].__getitem__, 0)
+            cache_changes("when another dataset was built")
+            for i in sorted(first):
+                rr = call(ds.__getitem__, i)
+                why = "raised" if rr[0] == "raise" else same_sample(first[i], rr[1])
+                if why:
+                    fails.append(f"ds[{i}] changed after another dataset of the same class was built: {why}")
+                    break
     if npc and sorted(os.listdir(chunk_dir)) != files0:
         fails.append("chunk directory contents changed during the reads")
     if len(ds) != len(rows):
@@ -650,7 +676,7 @@ def reads_json(reads):
 
 
 def case_json(case):
-    return {"spec": case["spec"], "cfg": case["cfg"], "seq": case["seq"]}
+    return {"spec": case["spec"], "cfg": case["cfg"], "seq": case["seq"], "bystander": bool(case.get("bystander"))}
 
 
 # ------------------------------------------------------------------ functional API
@@ -923,7 +949,7 @@ def main(chk: Check):
                 {"kind": "user", "pts": [[51.25, 46.75], [69.625, 50.8125]]}]}]}
             cfg = {"kind": kind, "user_only": True, "max_hw": [None, None], "scale": 1.0, "anchor": 1,
                    "crop_hw": [32, 32], "max_stride": 16}
-            ds_cases.append({"spec": spec, "cfg": cfg, "seq": [0, 1, 0, 0, 1, 7]})
+            ds_cases.append({"spec": spec, "cfg": cfg, "seq": [0, 1, 0, 0, 1, 7], "bystander": True})
         for _ in range(chk.n(900, 8000)):
             spec = gen_labels_spec(rng)
             cfg = gen_cfg(rng, spec)
@@ -931,7 +957,7 @@ def main(chk: Check):
             seq = [rng.randrange(n) for _ in range(rng.choice([2, 4, 2 * n + 2]))] if n else []
             if rng.random() < 0.15:
                 seq.insert(rng.randrange(len(seq) + 1), n + rng.randrange(3))   # KeyError index
-            ds_cases.append({"spec": spec, "cfg": cfg, "seq": seq})
+            ds_cases.append({"spec": spec, "cfg": cfg, "seq": seq, "bystander": rng.random() < 0.25})
         lines = []
         for c in ds_cases:
             lines += [ds_line(1, c["spec"], c["cfg"], c["seq"]), ds_line(0, c["spec"], c["cfg"], c["seq"])]
